@@ -102,7 +102,7 @@ class Engine(Conc, Executor, Calls):
                             cl.ast = parse_expr(rest)
                         elif cl.kind == "loop":
                             import re
-                            m = re.match(r"^(\d+)\s+(invariant|decreases|modifies)\s*(\[[^\]]*\])?\s*(.*)$", cl.text)
+                            m = re.match(r"^(\d+)\s+(invariant|decreases|modifies|step)\s*(\[[^\]]*\])?\s*(.*)$", cl.text)
                             if not m:
                                 raise SpecError("bad loop clause: " + cl.text)
                             cl.extra.update(ordinal=int(m.group(1)), what=m.group(2))
@@ -569,6 +569,21 @@ class Engine(Conc, Executor, Calls):
             idx = blk["preds"].index(fr.prev)
             newv = {ins["name"]: self.operand(fr, st, ins["args"][idx]) for ins in phis}
             fr.env.update(newv)
+            # per-iteration effect clauses: evaluated over the trace entries of this iteration only
+            for cl in [c for c in clauses if c.extra["what"] == "step"]:
+                o = self.obl("loop-iteration", "%d:%s" % (loop["ordinal"], cl.label or "step"), cl.tags)
+                cutidx = max([i for i, e in enumerate(st.trace) if e.kind == "loopcut"] or [-1])
+                full = st.trace
+                st.trace = full[cutidx + 1:]
+                try:
+                    goal = self.eval_loop_clause(fr, st, cl)
+                except (SpecError, Unsupported) as e:
+                    o.instances += 1
+                    o.unknown.append({"reason": "spec error: %s" % e})
+                    st.trace = full
+                    continue
+                st.trace = full
+                self.record(o, st, goal, blk["instrs"][0].get("pos") if blk["instrs"] else None)
             for cl in invs:
                 o = self.obl("loop-step", "%d:%s" % (loop["ordinal"], cl.label or "inv"), cl.tags)
                 try:
@@ -595,6 +610,24 @@ class Engine(Conc, Executor, Calls):
         # havoc loop-carried SSA values
         for ins in phis:
             fr.env[ins["name"]] = st.fresh(ins["type"], "loop_" + ins["name"])
+        # havoc the symbolic call counters of everything that may be called inside the loop, and library ghost counters
+        callees = set()
+        for b in body:
+            for ins in fr.fn["blocks"][b]["instrs"]:
+                if ins["op"] in ("Call", "Go", "Defer"):
+                    callees.add(ins["aux"].get("callee") or "dyn")
+        for nm in callees:
+            k = ("ncalls", nm)
+            c = z3.Const(fresh_name("ncalls"), z3.IntSort())
+            base = st.ghost.get(k, z3.IntVal(0))
+            st.assume(c >= base)
+            st.ghost[k] = c
+        for k in list(st.ghost):
+            if isinstance(k, tuple) and k[0] == "backoff":
+                c = z3.Const(fresh_name("attempt"), z3.IntSort())
+                st.assume(c >= st.ghost[k])
+                st.ghost[k] = c
+        st.trace = list(st.trace) + [Ev("<loop %d: earlier iterations>" % loop["ordinal"], [], [], None, "loopcut")]
         # havoc local cells stored to inside the loop, and the declared targets
         for b in body:
             for ins in fr.fn["blocks"][b]["instrs"]:
@@ -638,6 +671,24 @@ class Engine(Conc, Executor, Calls):
 
     def on_atomic(self, fr, st, p, ins, what):
         pass
+
+    def on_block(self, fr, st, ins, chans, blocking):
+        """blocking points of a function declared `cancellable <ctx>`: one case must wait on ctx.Done()"""
+        c = self.cur
+        if c is None or self.quiet or not blocking or fr.fn is not c.get("fn"):
+            return
+        cl = c["decl"].get("cancellable")
+        if not cl:
+            return
+        ctxname = cl[0].text.strip()
+        ctxv = c["names"].get(ctxname)
+        if not isinstance(ctxv, IfaceV):
+            return
+        done = uf("ctx.Done", [Ref], Ref)(ctxv.ref)
+        o = self.obl("blocking", "waits-on-%s.Done" % ctxname, cl[0].tags or None)
+        conds = [ch.ref == done for (d, ch) in chans if d == "recv" and isinstance(ch, ChanV)]
+        goal = z3.Or(*conds) if conds else z3.BoolVal(False)
+        self.record(o, st, goal, ins.get("pos"))
 
     def ghost_value(self, ctx, n):
         return None
@@ -768,6 +819,28 @@ class Engine(Conc, Executor, Calls):
                     of.failed.append({"pos": out.info, "reason": "writes outside modifies: %s" % bad})
                 else:
                     of.proved += 1
+        # cancellable waits
+        if "cancellable" in decl.flags or decl.get("cancellable"):
+            oc2 = self.obl("blocking", "cancellable", None)
+            for out in rets:
+                s2 = out.st
+                td = s2.ghost.get("took_done")
+                if td is None:
+                    continue
+                oc2.instances += 1
+                later = [e for e in s2.trace[td + 1:] if e.kind in ("call", "go")]
+                res = out.results[-1] if out.results else None
+                ok_err = isinstance(res, IfaceV)
+                if later:
+                    oc2.failed.append({"pos": out.info, "reason": "after the context was cancelled the function still performs: %s" % [repr(e) for e in later][:4]})
+                elif not ok_err:
+                    oc2.failed.append({"pos": out.info, "reason": "no error result"})
+                else:
+                    oc2.instances -= 1
+                    self.record(oc2, s2, res.ref != NIL, out.info)
+            if oc2.instances == 0:
+                oc2.instances = 1
+                oc2.proved = 1
         info["secs"] = time.time() - t0
         self.cur = None
         return info
